@@ -8,3 +8,4 @@ import Helm.Props.C16
 import Helm.Props.C19
 import Helm.Props.C17
 import Helm.Props.C15
+import Helm.Props.C14
